@@ -10,30 +10,119 @@ import (
 	"golang.org/x/tools/go/ssa"
 )
 
-// exploreLoops runs loop-mode explorations over every natural loop of fn selected by sel.
-func exploreLoops(p *Prog, c *Closures, r *Result, fn *ssa.Function, sel func(lp natLoop, closure EffSet) bool, vals []Valuation, mask EffSet,
-	mk func(lp natLoop, idx int, val Valuation) *effListener, cfg func(x *Explorer)) int {
-	found := 0
-	for _, lp := range naturalLoops(fn) {
-		var cl EffSet
-		for _, b := range lp.blocks {
-			for _, in := range b.Instrs {
-				cl = cl.Union(staticEffects(p, in))
-				if ci, ok := in.(ssa.CallInstruction); ok {
-					if f := ci.Common().StaticCallee(); f != nil && inSod(p, f) {
-						cl = cl.Union(c.Of(f))
+// calleesWithin lists fn and the sod functions it can call statically, breadth first, up to the given depth.
+func calleesWithin(p *Prog, fn *ssa.Function, depth int) []*ssa.Function {
+	out := []*ssa.Function{fn}
+	seen := map[*ssa.Function]bool{fn: true}
+	frontier := []*ssa.Function{fn}
+	for d := 0; d < depth; d++ {
+		var next []*ssa.Function
+		for _, f := range frontier {
+			for _, b := range f.Blocks {
+				for _, in := range b.Instrs {
+					if _, isGo := in.(*ssa.Go); isGo {
+						continue
+					}
+					if ci, ok := in.(ssa.CallInstruction); ok {
+						g := ci.Common().StaticCallee()
+						if g != nil && g.Blocks != nil && inSod(p, g) && !seen[g] {
+							seen[g] = true
+							out = append(out, g)
+							next = append(next, g)
+						}
 					}
 				}
 			}
 		}
-		if !sel(lp, cl) {
+		frontier = next
+	}
+	return out
+}
+
+type deepLoop struct {
+	fn *ssa.Function
+	lp natLoop
+	cl EffSet // effects of the loop body (own instructions and callees' closures)
+}
+
+// deepLoops finds the natural loops of fn and of the helpers it calls (a loop extracted into a private helper is
+// still "a loop of fn" for the rules).
+func deepLoops(p *Prog, c *Closures, fn *ssa.Function, depth int) []deepLoop {
+	var out []deepLoop
+	for _, f := range calleesWithin(p, fn, depth) {
+		for _, lp := range naturalLoops(f) {
+			var cl EffSet
+			for _, b := range lp.blocks {
+				for _, in := range b.Instrs {
+					cl = cl.Union(staticEffects(p, in))
+					if ci, ok := in.(ssa.CallInstruction); ok {
+						if g := ci.Common().StaticCallee(); g != nil && inSod(p, g) {
+							cl = cl.Union(c.Of(g))
+						}
+					}
+				}
+			}
+			out = append(out, deepLoop{f, lp, cl})
+		}
+	}
+	return out
+}
+
+// exploreLoops runs loop-mode explorations of root over every loop (of root or of a helper within two calls) selected by sel.
+func exploreLoops(p *Prog, c *Closures, r *Result, fn *ssa.Function, sel func(lp natLoop, closure EffSet) bool, vals []Valuation, mask EffSet,
+	mk func(lp natLoop, idx int, val Valuation) *effListener, cfg func(x *Explorer)) int {
+	found := 0
+	// loops of fn itself first; only when it has none that qualifies (the loop was extracted into a helper) are the
+	// helpers one, then two calls away searched
+	var cands []deepLoop
+	for depth := 0; depth <= 2 && len(cands) == 0; depth++ {
+		for _, dl := range deepLoops(p, c, fn, depth) {
+			if sel(dl.lp, dl.cl) {
+				cands = append(cands, dl)
+			}
+		}
+	}
+	// keep the outermost candidates only: a loop nested in, or living in a function called from the body of,
+	// another candidate is part of that candidate's iteration, not a loop of its own
+	inner := func(x, y deepLoop) bool {
+		if x.fn == y.fn && x.lp.header != y.lp.header {
+			for _, b := range y.lp.blocks {
+				if b == x.lp.header {
+					return true
+				}
+			}
+		}
+		for _, b := range y.lp.blocks {
+			for _, in := range b.Instrs {
+				if ci, ok := in.(ssa.CallInstruction); ok {
+					if g := ci.Common().StaticCallee(); g != nil && g.Blocks != nil && inSod(p, g) {
+						for _, h := range calleesWithin(p, g, 3) {
+							if h == x.fn {
+								return true
+							}
+						}
+					}
+				}
+			}
+		}
+		return false
+	}
+	for i, dl := range cands {
+		nested := false
+		for j, other := range cands {
+			if i != j && inner(dl, other) {
+				nested = true
+			}
+		}
+		if nested {
 			continue
 		}
+		lp := dl.lp
 		found++
 		for _, val := range vals {
 			l := mk(lp, found, val)
 			x := NewExplorer(p, c, fn, val, l)
-			x.LoopFn, x.LoopHeader = fn, lp.header
+			x.LoopFn, x.LoopHeader = dl.fn, lp.header
 			x.LoopBlocks = map[*ssa.BasicBlock]bool{}
 			for _, b := range lp.blocks {
 				x.LoopBlocks[b] = true
@@ -270,12 +359,56 @@ func init() { register("C01", checkC01) }
 
 // checkErrorDiscipline: no dropped error results.
 func checkErrorDiscipline(p *Prog, r *Result, rule string) {
-	exempt := map[string]string{
-		// function / callee -> reason
-		"unmarshalJsonFile/(*os.File).Close": "closing a file that was only read",
-		"writeReader/(*os.File).Close":       "deferred close after the explicit Close whose error is returned",
-		"writeReader/(io.WriteCloser).Close": "deferred close after the explicit Close whose error is returned",
-		"(*DB).Create/(*Schema).initialize":  "initialize always returns nil (checked: R4.const)",
+	c := closuresOf(p)
+	// enumerated exceptions, recognised by structure (stable under renaming):
+	//  - a deferred Close in a function that only reads files;
+	//  - a deferred Close in a function that also closes explicitly and uses that error (the deferred one is a safety net);
+	//  - a call of a package function that provably returns only the nil error.
+	exemptOf := func(fn *ssa.Function, in ssa.Instruction, callee *ssa.Function, isClose bool) string {
+		if isClose {
+			if _, isDefer := in.(*ssa.Defer); isDefer {
+				own := c.own[fn]
+				if !own.Has(EFsWObj) && !own.Has(EFsWSchema) && !own.Has(EFsWOther) {
+					return "closing a file that was only read"
+				}
+				for _, b := range fn.Blocks {
+					for _, i2 := range b.Instrs {
+						if call, ok := i2.(*ssa.Call); ok && call != in {
+							isC := (call.Call.IsInvoke() && call.Call.Method.Name() == "Close") || classifyExternal(call.Call.StaticCallee()) == xFileClose
+							if isC {
+								if refs := call.Referrers(); refs != nil {
+									for _, rf := range *refs {
+										if _, dbg := rf.(*ssa.DebugRef); !dbg {
+											return "deferred close after the explicit Close whose error is returned"
+										}
+									}
+								}
+							}
+						}
+					}
+				}
+			}
+		}
+		if callee != nil && inSod(p, callee) && callee.Blocks != nil {
+			allNil := true
+			for _, b := range callee.Blocks {
+				for _, i2 := range b.Instrs {
+					if ret, ok := i2.(*ssa.Return); ok {
+						for _, res := range ret.Results {
+							if isErrorType(res.Type()) {
+								if cst, ok := res.(*ssa.Const); !ok || cst.Value != nil {
+									allNil = false
+								}
+							}
+						}
+					}
+				}
+			}
+			if allNil {
+				return "the callee returns only the nil error on every path"
+			}
+		}
+		return ""
 	}
 	for _, fn := range p.Funcs {
 		for _, b := range fn.Blocks {
@@ -326,7 +459,6 @@ func checkErrorDiscipline(p *Prog, r *Result, rule string) {
 				} else if ci.Common().IsInvoke() {
 					cname = "(" + types.TypeString(ci.Common().Value.Type(), func(p *types.Package) string { return p.Name() }) + ")." + ci.Common().Method.Name()
 				}
-				key := FuncName(fn) + "/" + cname
 				dropped := ""
 				switch v := in.(type) {
 				case *ssa.Defer:
@@ -364,7 +496,7 @@ func checkErrorDiscipline(p *Prog, r *Result, rule string) {
 				construct := "call " + cname
 				if dropped == "" {
 					r.Report(rule, FuncName(fn), construct, Discharged, "", p.Pos(in.Pos()), nil, false)
-				} else if why, ok := exempt[key]; ok {
+				} else if why := exemptOf(fn, in, ci.Common().StaticCallee(), strings.HasSuffix(cname, ".Close")); why != "" {
 					r.Report(rule, FuncName(fn), construct, Discharged, "enumerated exception: "+why, p.Pos(in.Pos()), nil, true)
 				} else {
 					r.Report(rule, FuncName(fn), construct, Violated, "error dropped: "+dropped, p.Pos(in.Pos()), nil, true)
